@@ -280,7 +280,8 @@ INTERPRETED = {
     "builtins.repr": repr,
     "str.rsplit": lambda s_, *xs: s_.rsplit(*[int(x) if isinstance(x, float) else x for x in xs]),
     "str.split": lambda s_, *xs: s_.split(*[int(x) if isinstance(x, float) else x for x in xs]),
-    "elem": lambda a, i: a[int(i)],
+    "elem": lambda a, i: a[int(i)] if np.ndim(a) > 0 or isinstance(a, (str, list, tuple)) else a,
+    "first": lambda a, i=0: a,
     "getitem": lambda a, i: a[int(i)] if not isinstance(i, str) else a[i],
     "re.search": lambda p, s_: __import__("re").search(p, s_),
     "re.findall": lambda p, s_: __import__("re").findall(p, s_),
